@@ -295,7 +295,11 @@ type plainObserver struct {
 
 // NewPlainObserver creates an Observer using the non-generic ecs.Observer.
 func NewPlainObserver(env *Env, evt ecs.EventType) Observer {
-	return &plainObserver{env: env, o: ecs.Observe(evt)}
+	o := ecs.Observe(evt)
+	if env.ViaNew() {
+		o = (*ecs.Observer)(nil).New(evt)
+	}
+	return &plainObserver{env: env, o: o}
 }
 
 func (o *plainObserver) Comps() []ct.Comp      { return nil }
